@@ -20,7 +20,7 @@ func checkC08(r *Run) {
 	r.Rule("R4", "break/continue objects carry the output accumulated so far plus the inner object's value, and the block evaluator returns in that iteration", 1)
 	r.Rule("R5", "the parser's in-loop flag is saved on entry, set before anything that can parse a block, and restored by a defer on every exit; never reset to a constant", 1)
 	forLoopsRuleSSA(r)
-	forIterableRule(r)
+	forIterableRuleSSA(r)
 	coreBlockRules(r, "R4", "R4")
 	inLoopFlagRule(r, "R5")
 }
@@ -323,7 +323,6 @@ func forIterableRule(r *Run) {
 		r.Bad("R3", f.Name(), "non-iterable value", w.Pos(f.Decl.Pos()), "a value that is neither map, slice, array nor Iterator must be an error")
 	}
 }
-
 
 func isErrNotNil(info *types.Info, e ast.Expr) bool {
 	be, ok := unparen(e).(*ast.BinaryExpr)
